@@ -181,55 +181,83 @@ theorem flags_lt (f : Flags) : f.toNat < 256 ^ P_FLAGS := by
   obtain ⟨a, b, c⟩ := f
   cases a <;> cases b <;> cases c <;> decide
 
-/-- the header of a node: metadata count, the with-defaults annotation when the printer adds it, flags.  The annotation comes
-back as an ordinary metadata instance -/
-theorem header_at (P : Params) (hP : P.Ok) (d : Nat) (o : POpts) (S : LSchema)
-    (hwd : ∀ w, S.wd = some w → unpackRev (packRev w) = w) (n : DNode) (ops : List Op)
-    (ho : headerOps o S n = some ops) (K : List Op) (r : R) (h : At P d (ops ++ K) r) :
-    ∃ r', pHeader P S r = some (r', if wdTagged o S n then [wdMeta] else [], n.flags) ∧ At P d K r' ∧ n.metas = [] := by
-  have c1 : R_METACOUNT = P_METACOUNT := rfl
-  have c2 : R_FLAGS = P_FLAGS := rfl
-  have c3 : R_METANAME = P_WDNAME := rfl
-  have c4 : R_METAVAL = P_WDVAL := rfl
-  simp only [headerOps] at ho
-  split at ho
-  · simp at ho
-  · rename_i hm
-    have hm' : n.metas = [] := by simpa using hm
-    by_cases ht : wdTagged o S n = true
-    · simp only [ht, ↓reduceIte] at ho ⊢
-      obtain ⟨x1, y1, hx1, hy1, rfl⟩ := cat_eq_some ho
-      obtain ⟨x2, y2, hx2, hy2, rfl⟩ := cat_eq_some hy1
-      obtain ⟨x3, y3, hx3, hy3, rfl⟩ := cat_eq_some hy2
-      obtain ⟨x4, y4, hx4, hy4, rfl⟩ := cat_eq_some hy3
-      simp only [Option.some.injEq] at hx1 hy4
-      subst hx1 hy4
+/-- the annotation table is unambiguous: an annotation is found again by its dump key and by the (module, revision word,
+name) the printer writes for it, and its module has a name -/
+def AnnotsOk (S : LSchema) : Prop :=
+  ∀ a ∈ S.annotsEff, a.modName ≠ [] ∧ S.annotsEff.find? (fun b => b.key == a.key) = some a ∧
+    S.annotsEff.find? (fun b => modMatches a.modName (unpackRev (packRev a.rev)) b.modName b.rev && b.name == a.name) = some a
+
+/-- metadata instances of known annotations with canonical values of the annotation's type -/
+def MetasOk (S : LSchema) (ms : List Meta) : Prop :=
+  ∀ m ∈ ms, ∃ a ∈ S.annotsEff, a.key = m.1 ∧ textVal a.ty m.2 = some m.2
+
+theorem metas_at (P : Params) (hP : P.Ok) (d : Nat) (S : LSchema) (hann : AnnotsOk S) :
+    ∀ (ms : List Meta) (ops K : List Op) (r : R), metasOps S ms = some ops → MetasOk S ms → At P d (ops ++ K) r →
+      ∃ r', pMetas P S ms.length r = some (r', ms) ∧ At P d K r' := by
+  intro ms
+  induction ms with
+  | nil =>
+    intro ops K r ho _ h
+    simp only [metasOps, Option.some.injEq] at ho
+    subst ho
+    exact ⟨r, rfl, by simpa using h⟩
+  | cons m ms ih =>
+    intro ops K r ho hm h
+    obtain ⟨a, ha, hkey, hval⟩ := hm m List.mem_cons_self
+    obtain ⟨hne, hf1, hf2⟩ := hann a ha
+    simp only [metasOps, ← hkey, hf1] at ho
+    obtain ⟨x1, y1, hx1, hy1, rfl⟩ := cat_eq_some ho
+    obtain ⟨x2, y2, hx2, hy2, rfl⟩ := cat_eq_some hy1
+    obtain ⟨x3, y3, hx3, hy3, rfl⟩ := cat_eq_some hy2
+    simp only [List.append_assoc] at h
+    obtain ⟨r1, e1, a1⟩ := model_at P hP d a.modName a.rev false x1 hx1 hne _ r h
+    obtain ⟨r2, r3, e2, e3, a3⟩ := str_at P hP d P_METANAME a.name x2 hx2 _ r1 a1
+    obtain ⟨r4, r5, e4, e5, a5⟩ := str_at P hP d P_METAVAL m.2 x3 hx3 _ r3 a3
+    obtain ⟨r6, e6, a6⟩ := ih y3 K r5 hy3 (fun x hx => hm x (List.mem_cons_of_mem _ hx)) a5
+    have c3 : R_METANAME = P_METANAME := rfl
+    have c4 : R_METAVAL = P_METAVAL := rfl
+    refine ⟨r6, ?_, a6⟩
+    simp only [List.length_cons, pMetas, e1, c3, c4, e2, e3, e4, e5, hf2, hval, e6, hkey]
+
+/-- the with-defaults instance the printer adds is one of a known annotation with a canonical value -/
+theorem printedMetas_ok (o : POpts) (S : LSchema) (n : DNode) (hm : MetasOk S n.metas) : MetasOk S (printedMetas o S n) := by
+  intro m hmem
+  simp only [printedMetas, List.mem_append] at hmem
+  rcases hmem with h | h
+  · split at h
+    · rename_i ht
+      simp only [List.mem_singleton] at h
+      subst h
       have hsome : S.wd.isSome = true := by
         simp only [wdTagged, Bool.and_eq_true] at ht
         exact ht.1.2
       obtain ⟨w, hw⟩ := Option.isSome_iff_exists.mp hsome
-      simp only [hw, Option.getD_some] at hx2
-      simp only [List.cons_append, List.nil_append, List.append_assoc] at h
-      obtain ⟨r1, e1, a1⟩ := rdNum_at P hP d P_METACOUNT 1 (by decide) _ r h
-      obtain ⟨r2, e2, a2⟩ := model_at P hP d wdModName w false x2 hx2 (by decide) _ r1 a1
-      obtain ⟨r3, r4, e3, e4, a4⟩ := str_at P hP d P_WDNAME wdAnnotName x3 hx3 _ r2 a2
-      obtain ⟨r5, r6, e5, e6, a6⟩ := str_at P hP d P_WDVAL wdAnnotVal x4 hx4 _ r4 a4
-      obtain ⟨r7, e7, a7⟩ := rdNum_at P hP d P_FLAGS n.flags.toNat (flags_lt _) _ r6 a6
-      refine ⟨r7, ?_, a7, hm'⟩
-      have hmm : modMatches wdModName (unpackRev (packRev w)) wdModName w = true := by
-        rw [hwd w hw]; simp [modMatches]
-      have hn1 : (wdAnnotName != wdAnnotName) = false := by decide
-      have hn2 : (wdAnnotVal != wdAnnotVal && wdAnnotVal != wdAnnotFalse) = false := by decide
-      simp only [pHeader, c1, c2, c3, c4, e1, pMetas, e2, hw, hmm, Bool.not_true, Bool.false_eq_true, ↓reduceIte, e3, e4, e5, e6,
-        hn1, hn2, e7, flags_rt, wdMeta]
-    · have ht' : wdTagged o S n = false := by simpa using ht
-      simp only [ht', Bool.false_eq_true, ↓reduceIte, Option.some.injEq] at ho ⊢
-      subst ho
-      simp only [List.cons_append, List.nil_append] at h
-      obtain ⟨r1, e1, a1⟩ := rdNum_at P hP d P_METACOUNT 0 (by decide) _ r h
-      obtain ⟨r2, e2, a2⟩ := rdNum_at P hP d P_FLAGS n.flags.toNat (flags_lt _) _ r1 a1
-      refine ⟨r2, ?_, a2, hm'⟩
-      simp only [pHeader, c1, c2, e1, pMetas, e2, flags_rt]
+      exact ⟨wdAnnot w, by simp [LSchema.annotsEff, hw], rfl, rfl⟩
+    · simp at h
+  · exact hm m h
+
+/-- the header of a node: metadata count, the metadata instances (the with-defaults annotation first when the printer
+adds it), flags -/
+theorem header_at (P : Params) (hP : P.Ok) (d : Nat) (o : POpts) (S : LSchema) (hann : AnnotsOk S) (n : DNode)
+    (hm : MetasOk S n.metas) (ops : List Op) (ho : headerOps o S n = some ops) (K : List Op) (r : R) (h : At P d (ops ++ K) r) :
+    ∃ r', pHeader P S r = some (r', printedMetas o S n, n.flags) ∧ At P d K r' := by
+  have c1 : R_METACOUNT = P_METACOUNT := rfl
+  have c2 : R_FLAGS = P_FLAGS := rfl
+  simp only [headerOps] at ho
+  split at ho
+  · simp at ho
+  · rename_i hlen
+    obtain ⟨x1, y1, hx1, hy1, rfl⟩ := cat_eq_some ho
+    obtain ⟨x2, y2, hx2, hy2, rfl⟩ := cat_eq_some hy1
+    simp only [Option.some.injEq] at hx1 hy2
+    subst hx1 hy2
+    simp only [List.cons_append, List.nil_append, List.append_assoc] at h
+    obtain ⟨r1, e1, a1⟩ := rdNum_at P hP d P_METACOUNT (printedMetas o S n).length (by
+      have : (256 : Nat) ^ P_METACOUNT = 256 := rfl
+      omega) _ r h
+    obtain ⟨r2, e2, a2⟩ := metas_at P hP d S hann _ x2 _ r1 hx2 (printedMetas_ok o S n hm) a1
+    obtain ⟨r3, e3, a3⟩ := rdNum_at P hP d P_FLAGS n.flags.toNat (flags_lt _) _ r2 a2
+    exact ⟨r3, by simp only [pHeader, c1, c2, e1, e2, e3, flags_rt], a3⟩
 
 /-- skipping an annotation with the widths it was printed with lands behind it -/
 theorem metaSkip_at (P : Params) (hP : P.Ok) (d : Nat) (name val : Bytes) (x y : List Op) (hx : strOps P_METANAME name = some x)
